@@ -124,6 +124,9 @@ func (w *c11World) list(feature string) []*qosmanagerUtil.PodEvictInfo {
 	}
 }
 
+// name of the last key of the best-effort order (vacuity counter)
+const c11BEKeyName = "usage"
+
 // which pod keys the enabled features read (the others are not varied in the whole-round parts)
 func c11NeedsUsage(fs []string) bool { return c11Has(fs, c11FBE) || c11Has(fs, c11FUsed) }
 func c11NeedsReq(fs []string) bool   { return c11Has(fs, c11FAlloc) }
@@ -190,6 +193,5 @@ func TestVerifC11Mem(t *testing.T) {
 	if c11Replay(env) {
 		return
 	}
-	c11RunBuilderParts(env, c11Unit)
-	c11RunRoundParts(env, c11Unit)
+	c11RunUnit(env)
 }
